@@ -83,7 +83,22 @@ def function_text(path, name):
 
 def statements(body):
     out = []
+    # a statement may continue on the following lines: join until it ends in ';', '{' or '}'
+    joined, acc = [], ""
     for raw in body.split("\n"):
+        l = raw.strip()
+        if not l:
+            continue
+        if l.startswith("#"):
+            joined.append(l)
+            continue
+        acc = (acc + " " + l).strip()
+        if acc.endswith((";", "{", "}")) or re.match(r"^(RLC_TRY|RLC_CATCH_ANY|RLC_FINALLY)$", acc):
+            joined.append(acc)
+            acc = ""
+    if acc:
+        joined.append(acc)
+    for raw in joined:
         l = raw.strip()
         if not l:
             continue
@@ -273,8 +288,7 @@ def generate(out_path=None):
     os.makedirs(os.path.dirname(out_path), exist_ok=True)
     new = HEADER + "\n\n".join(defs) + "\n\nend Relic.Gen.Fpx\n"
     if not os.path.exists(out_path) or open(out_path).read() != new:
-        with open(out_path, "w") as fh:
-            fh.write(new)
+        __import__("relicbuild").write_if_changed(out_path, new)
     return {"obligations": obligations, "failures": failures}
 
 
